@@ -87,6 +87,8 @@ def calls_under_test(env, U):
         "size-f3-0": (lambda: U["f3"].size(0), False),
         "size-f3-1": (lambda: U["f3"].size(1), False),
         "size-f3-3": (lambda: U["f3"].size(3), False),
+        "size-f4-default": (lambda: U["f4"].size(), False),
+        "size-f1-default": (lambda: (U["f1"].size(), U["f1"].size(0)), False),
         "types-f1": (lambda: sorted(str(t) for t in env.typeso.get_types(U["f1"])), False),
         "type-sh": (lambda: str(U["sh"].get_type()), False),
         "print-f4": (lambda: U["f4"].to_smtlib(), False),
@@ -200,5 +202,5 @@ def h_step_twin(m0: bool, m1: bool, m2: bool, m3: bool, m4: bool, m5: bool, m6: 
 
 
 CALLS = ["logic-sum", "logic-idl", "theory-contains", "theory-sum", "theory-xyz", "simplify-f1", "simplify-f3", "substitute-f1",
-         "substitute-f2", "freevars-f2", "atoms-f1", "size-f3-0", "size-f3-1", "size-f3-3", "types-f1", "type-sh", "print-f4",
+         "substitute-f2", "freevars-f2", "atoms-f1", "size-f3-0", "size-f3-1", "size-f3-3", "size-f4-default", "size-f1-default", "types-f1", "type-sh", "print-f4",
          "hr-f2", "parse", "nnf-f2", "cnf-f4", "prenex-f2", "qf-f2"]
